@@ -30,7 +30,7 @@
 #include <unistd.h>
 #include <sys/wait.h>
 
-#define MAXPOOL 4096
+#define MAXPOOL (1 << 18)
 #define MAXH 8
 #define MAXC 16
 typedef struct { char name[24]; double cell[6]; int n; Crystal_Atom atoms[6]; int builtin; double vol; } PoolEnt;
@@ -109,6 +109,7 @@ static void write_file(const char *path, int bad, int at, int k, const int *ids)
     }
     fputs("#L  AtomicNumber  Fraction  X  Y  Z\n", f);
     if (b == 6) { fclose(f); return; }          /* file ends before any atom line */
+    if (b == 5 && p->n == 0) fputs("14 1 oops 0.5 0.5\n", f);        /* a cell without atoms gets one (unparsable) atom line */
     for (int j = 0; j < p->n; j++) {
       if (b == 5 && j == p->n - 1) fprintf(f, "%d %.17g oops %.17g %.17g\n", p->atoms[j].Zatom, p->atoms[j].fraction, p->atoms[j].y, p->atoms[j].z);
       else fprintf(f, "%d %.17g %.17g %.17g %.17g\n", p->atoms[j].Zatom, p->atoms[j].fraction, p->atoms[j].x, p->atoms[j].y, p->atoms[j].z);
@@ -222,7 +223,7 @@ int cmd_c14(int argc, char **argv) {
       char name[8]; snprintf(name, sizeof name, "%c", 'A' + nm);
       double cell[6] = {3.0 + nm + 0.25 * g, 4.0 + 0.5 * g, 5.0, g ? 80.0 : 90.0, 90.0, g ? 100.0 : 90.0};
       Crystal_Atom at[2] = {{14, 1.0, 0, 0, 0}, {8, 0.5, 0.25, 0.5 * g, 0.75}};
-      pool_add(name, cell, 1 + g, at, 0, 0.0);
+      pool_add(name, cell, 2 * g, at, 0, 0.0);          /* geometry 0: a cell with no atoms (the atom pointer of the caller's struct stays non-NULL) */
     }
     fprintf(OUT, "{\"k\":\"poolbase\",\"base\":%d}\n", base);
     FILE *f = fopen(argv[1], "r"); if (!f) { perror(argv[1]); return 2; }
